@@ -1,7 +1,8 @@
 (** C19 - Splitting multi-port entries into single-port entries keeps the meaning. *)
 From V Require Import base.Prelude base.Strs gen.Tables model.Cfg model.Names model.Wildcard
   model.Addr model.Ports model.Ace model.SplitPorts model.Shading spec.AceSem spec.AclSem
-  proofs.PortsProofs proofs.ShadowProofs proofs.AclProofs proofs.SplitProofs.
+  proofs.PortsProofs proofs.ShadowProofs proofs.AclProofs proofs.SplitProofs
+  model.AceText model.AclText model.Ops proofs.HistoryProofs proofs.ConvSplitProofs proofs.OpsBuiltProofs.
 Local Open Scope N_scope.
 
 (** an entry whose port expressions are [eq] lists (or need no splitting): the split entries
@@ -32,6 +33,23 @@ Proof. exact expand_decision. Qed.
 Theorem C19_unsplit : forall pl v15 a l,
   split_ace pl v15 a = Ok [l] -> ungroup_ports pl v15 a = Ok ([a], true).
 Proof. intros pl v15 a l H. unfold ungroup_ports. now rewrite H. Qed.
+
+
+(** ** the operation Acl.ungroup_ports(), outright
+    On every flat Acl of remarks and reader-built extended ACEs with any port expression except
+    multi-operand neq ([acl_built], C17) the operation succeeds, stays in the class and keeps the
+    first-match decision of every packet: 'eq' lists are replaced in place by their single-port
+    entries, everything else (ranges, lt, gt, neq X) is left as it is.  [C19_side] is the
+    per-side statement: the reader-built port expression is matched by exactly the packets its
+    pieces match. *)
+Theorem C19_acl_ungroup_ports : forall a, acl_built a ->
+  exists a', op_ungroup_ports a = Ok a' /\ acl_built a' /\ forall k, acl_decide a' k = acl_decide a k.
+Proof. exact ungroup_ports_built. Qed.
+
+Theorem C19_side : forall pl c toks p, parse_port pl c toks = Ok p -> port_cls p ->
+  side_ports pl c p = Ok (side_list p)
+  /\ forall proto x, port_match p proto x <-> exists q, In q (side_list p) /\ port_match q proto x.
+Proof. exact reader_side. Qed.
 
 (** known finding N5 (pinned by the upstream tests): [neq a b] is split into [neq a], [neq b],
     whose union is every port: port 1 is not matched by the original and is matched after *)
